@@ -150,6 +150,14 @@ theorem images_once_indexed (h : chatPrompt cfg cost msgs = .ok q n sys ret imgs
     rw [h5 k, countTag_flatMap_zero k _ (fun m hm => hno m (List.mem_of_mem_drop hm) k)]
     simp
 
+/-- **Each tag sits in the message that owns the image**: walking the retained messages with
+    `b` = number of images returned so far, the rewrite adds to a message's content exactly one
+    tag `[img-k]` for every `k` in `[b, b + #images of that message)` and nothing else. -/
+theorem tags_in_owner (h : chatPrompt cfg cost msgs = .ok q n sys ret imgs) :
+    Owned 0 (msgs.drop n) ret := by
+  obtain ⟨s, _, _, hr, _⟩ := ok_inv h
+  exact rewriteAll_owned cfg _ _ _ _ hr
+
 /-- **Images of dropped messages are not sent**: every returned image is an image of a retained
     message; and if the sources of dropped and retained images are different, no image of a
     dropped message is returned. -/
@@ -228,6 +236,25 @@ theorem system_kept_partial (h : chatPrompt cfg cost msgs = .ok q n sys ret imgs
   rw [this]
   simp [systemsBefore, hm, hr]
 
+/-- **Repaired variant: the prompt that is sent is one that was measured.**  If anything was
+    dropped or more than the latest message was kept (`n + 1 < L`), the list handed to the final
+    `Execute` is — up to the image rewrite — exactly `system(n) ++ msgs[n:]`, the argument of
+    `cost n`, and that measurement fit the context length.  (On the pinned code the final list
+    can lack a system message that was part of the measured one.) -/
+theorem measured_prompt_fits_fixed (h : chatPrompt cfg cost msgs = .ok q n sys ret imgs)
+    (hv : cfg.fixed = true) (hn : n + 1 < msgs.length) :
+    sys = systemsBefore msgs n ∧ AllSame (msgs.drop n) ret ∧ fits cfg cost msgs n = true :=
+  ⟨(system_kept_fixed h hv).1, retained_is_suffix_in_order h,
+    (retained_first_failure h).1 n (Nat.le_refl _) hn⟩
+
+/-- **The piece representation is faithful to the bytes**: parsing raw content and rendering it
+    back is the identity, and parsed content contains no tag piece — so for a conversation given
+    as raw bytes the hypothesis of `images_once_indexed` always holds in the model; what remains
+    an assumption is that the literal text does not itself spell `[img-k]`. -/
+theorem pieces_faithful (s : Bytes) :
+    renderPieces (splitImg s) = s ∧ ∀ k, countTag k (splitImg s) = 0 :=
+  ⟨splitImg_render s, fun k => splitImg_noTag k s⟩
+
 /-! ### witness of finding F4 and non-vacuity -/
 
 def txt (b : Bytes) : List Piece := [Piece.lit b]
@@ -256,6 +283,16 @@ example :
     render false 1 (([⟨.user, txt bHi, []⟩] : List Msg).map toRMsg) = bHi ++ [32] ∧
     render false 1 (([⟨.system, txt bSYS, []⟩, ⟨.user, txt bHi, []⟩] : List Msg).map toRMsg)
       = bSYS ++ [32] ++ bHi ++ [32] := by decide
+
+/-- **Witness of F4b (legacy template loop)**: `[user "hi", assistant "", user "SYS"]` (any
+    three byte strings do) rendered by the legacy template: the pinned loop overwrites the
+    pending prompt `hi`; the repaired loop flushes it first. -/
+theorem F4b_legacy_overwrite :
+    render false 1 [(.user, bHi), (.assistant, []), (.user, bSYS)] = bSYS ++ [32] ∧
+    render true 1 [(.user, bHi), (.assistant, []), (.user, bSYS)] = bHi ++ [32] ++ bSYS ++ [32] ∧
+    render false 1 [(.user, bHi), (.tool, bLong), (.user, bSYS)] = bSYS ++ [32] ∧
+    render true 1 [(.user, bHi), (.tool, bLong), (.user, bSYS)] = bHi ++ [32] ++ bSYS ++ [32] := by
+  decide
 
 /-- non-vacuity: an `.ok` outcome with dropped messages, a kept system message, images renumbered
     after the drop, one placeholder filled and one tag prefixed (hypotheses of every theorem
